@@ -1,209 +1,336 @@
-(* C06 — documented concurrent use of Conn is free of data races: the lock-protocol part. *)
-From Coq Require Import List Lia Bool Arith.
-From V Require Import Model.Base Model.LockProto.
+(* C06 — documented concurrent use of Conn is free of data races: the lock-protocol part,
+   for ANY table (Model/LockTable.v); the table of the code is Gen/ConnLocks.v. *)
+From Coq Require Import List Lia Bool Arith NArith String.
+From V Require Import Model.Base Model.LockTable.
 Import ListNotations.
 Open Scope N_scope.
 
-(* ------------------------------------------------------------------ programs *)
-Lemma ok_app h a b :
-  routine_ok_from h a = true -> routine_ok_from false b = true -> routine_ok_from h (a ++ b) = true.
+(* ------------------------------------------------------------------ lists and held sets *)
+Lemma assocN_In {A} k (l : list (N * A)) v : assocN k l = Some v -> In (k, v) l.
 Proof.
-  revert h. induction a as [|x a IH]; intros h Ha Hb; cbn in *.
-  - destruct h; [discriminate | exact Hb].
-  - destruct x; cbn in *; apply andb_prop in Ha; destruct Ha as (H1 & H2); rewrite H1; cbn; auto.
-    subst h. auto.
+  induction l as [|[k' v'] l IH]; cbn; [discriminate|].
+  destruct (N.eqb_spec k k') as [->|Hne]; [intros [= ->]; now left | intros H; right; auto].
 Qed.
 
-(* a thread that runs any sequence of well-locked routines is a well-locked program *)
-Lemma ok_concat rs : Forall (fun r => routine_ok r = true) rs -> routine_ok_from false (List.concat rs) = true.
+Lemma held_eqb_eq a b : held_eqb a b = true <-> a = b.
 Proof.
-  induction 1 as [|r rs Hr _ IH]; cbn; [reflexivity|]. apply ok_app; assumption.
+  destruct a as [m e], b as [m' e']. unfold held_eqb. cbn. rewrite andb_true_iff, N.eqb_eq, eqb_true_iff.
+  split; [intros [-> ->]; reflexivity | intros [= -> ->]; auto].
+Qed.
+
+Lemma ls_has_In x ls : ls_has x ls = true <-> In x ls.
+Proof.
+  unfold ls_has. rewrite existsb_exists. split.
+  - intros (y & Hy & E). apply held_eqb_eq in E. now subst.
+  - intros H. exists x. split; [exact H | now apply held_eqb_eq].
+Qed.
+
+Lemma ls_equiv_In a b : ls_equiv a b = true -> forall x, In x a -> In x b.
+Proof.
+  unfold ls_equiv, ls_incl. intros H x Hx. apply andb_prop in H. destruct H as (H & _).
+  rewrite forallb_forall in H. apply ls_has_In. auto.
+Qed.
+
+Lemma ls_holds_false m ls : ls_holds m ls = false -> forall e, ~ In (m, e) ls.
+Proof.
+  unfold ls_holds. intros H e Hin. assert (existsb (fun y => fst y =? m) ls = true) as C; [|congruence].
+  apply existsb_exists. exists (m, e). split; [exact Hin | apply N.eqb_refl].
+Qed.
+
+Lemma ls_remove_In m ls x : In x (ls_remove m ls) -> In x ls /\ fst x <> m.
+Proof.
+  unfold ls_remove. rewrite filter_In. intros (Hin & Hne). split; [exact Hin|].
+  apply negb_true_iff in Hne. now apply N.eqb_neq.
+Qed.
+
+Lemma remove_first_In t e l l' x : remove_first t e l = Some l' -> In x l' -> In x l.
+Proof.
+  revert l'. induction l as [|y r IH]; intros l' H Hin; cbn in H; [discriminate|].
+  destruct (Nat.eqb (fst y) t && Bool.eqb (snd y) e).
+  - injection H as <-. now right.
+  - destruct (remove_first t e r) as [r'|]; [|discriminate]. injection H as <-. destruct Hin as [->|Hin]; [now left | right; eauto].
+Qed.
+
+Lemma remove_first_other t e l l' u e' : remove_first t e l = Some l' -> u <> t -> In (u, e') l -> In (u, e') l'.
+Proof.
+  revert l'. induction l as [|y r IH]; intros l' H Hne Hin; cbn in H; [destruct Hin|].
+  destruct (Nat.eqb (fst y) t && Bool.eqb (snd y) e) eqn:E.
+  - injection H as <-. destruct Hin as [->|Hin]; [|exact Hin]. cbn in E. apply andb_prop in E. destruct E as (E & _).
+    apply Nat.eqb_eq in E. congruence.
+  - destruct (remove_first t e r) as [r'|]; [|discriminate]. injection H as <-.
+    destruct Hin as [->|Hin]; [now left | right; eauto].
 Qed.
 
 (* ------------------------------------------------------------------ the invariant *)
-Definition is_holder (s : lstate) (t : nat) : bool :=
-  match holder s with Some u => Nat.eqb u t | None => false end.
-Definition linv (s : lstate) : Prop := forall t, routine_ok_from (is_holder s t) (progs s t) = true.
+(* a mutex is held by one writer, or by readers only *)
+Definition lock_wf (l : list (nat * bool)) : Prop := (exists u, l = [(u, true)]) \/ (forall x, In x l -> snd x = false).
 
-Lemma lstep_inv s t s' a : linv s -> lstep s t = Some (s', a) -> linv s'.
+Record tinv (T : table) (roles : nat -> N -> bool) (s : tstate) : Prop := mkInv {
+  (* a thread at a node really holds what the node's certificate claims, and runs an entry of its role *)
+  inv_pc : forall tid n, pc s tid = Some n ->
+           exists nd, find_node T n = Some nd /\ roles tid (n_entry nd) = true /\
+                      forall m e, In (m, e) (n_ls nd) -> In (tid, e) (locks s m);
+  inv_wf : forall m, lock_wf (locks s m)
+}.
+
+Lemma tinit_inv T roles : tinv T roles tinit.
+Proof. split; [intros tid n H; discriminate | intros m; right; intros x []]. Qed.
+
+Lemma remove_first_wf t e l l' : lock_wf l -> remove_first t e l = Some l' -> lock_wf l'.
 Proof.
-  intros I H. unfold linv, is_holder in *. unfold lstep in H. destruct (progs s t) as [|x rest] eqn:P; [discriminate|].
-  pose proof (I t) as It. rewrite P in It.
-  destruct x; cbn in It.
-  - destruct (holder s) as [u|] eqn:Hh; [discriminate|]. injection H as <- <-. intros t'. cbn.
-    destruct (Nat.eqb_spec t' t) as [->|Hne].
-    + rewrite Nat.eqb_refl. exact It.
-    + destruct (Nat.eqb_spec t t'); [congruence | apply I].
-  - injection H as <- <-. apply andb_prop in It. destruct It as (Hu & It).
-    destruct (holder s) as [u|] eqn:Hh; [|discriminate]. apply Nat.eqb_eq in Hu. subst u.
-    intros t'. cbn. destruct (Nat.eqb_spec t' t) as [->|Hne]; [exact It|].
-    specialize (I t'). cbn in I. destruct (Nat.eqb_spec t t'); [congruence | exact I].
-  - injection H as <- <-. apply andb_prop in It. destruct It as (Hu & It).
-    intros t'. cbn. destruct (Nat.eqb_spec t' t) as [->|Hne]; [exact It | apply I].
+  intros [(u & ->)|Hs] H.
+  - cbn in H. destruct (Nat.eqb u t), e; cbn in H; try discriminate; injection H as <-; right; intros x [].
+  - right. intros x Hx. apply Hs. eapply remove_first_In; eauto.
 Qed.
 
-(* every map access happens while its thread holds the mutex *)
-Lemma guarded s t s' w : linv s -> lstep s t = Some (s', AMap w) -> holder s = Some t.
+Lemma node_ok_of T n nd : table_wf T = true -> find_node T n = Some nd -> node_ok T (n, nd) = true.
 Proof.
-  intros I H. unfold lstep in H. destruct (progs s t) as [|x rest] eqn:P; [discriminate|].
-  pose proof (I t) as It. rewrite P in It. unfold is_holder in It.
-  destruct x; try (destruct (holder s); discriminate); try discriminate.
-  cbn in It. apply andb_prop in It. destruct It as (Hu & _).
-  destruct (holder s) as [u|]; [|discriminate]. apply Nat.eqb_eq in Hu. now subst.
+  intros W F. unfold table_wf in W. apply andb_prop in W. destruct W as (W & _). rewrite forallb_forall in W.
+  apply W. now apply assocN_In.
 Qed.
 
-(* the executed trace obeys the lock discipline *)
-Lemma lrun_trace_ok sched : forall s s' tr, linv s -> lrun s sched = Some (s', tr) -> trace_ok_from (holder s) tr = true.
+Lemma succ_of T nd ls' x :
+  forallb (fun s => match find_node T s with
+                    | Some ns => ls_equiv (n_ls ns) ls' && N.eqb (n_entry ns) (n_entry nd)
+                    | None => false end) (n_succ nd) = true ->
+  In x (n_succ nd) ->
+  exists ns, find_node T x = Some ns /\ n_entry ns = n_entry nd /\ forall y, In y (n_ls ns) -> In y ls'.
 Proof.
-  induction sched as [|t sched IH]; intros s s' tr I H; cbn [lrun] in H.
-  - injection H as <- <-. reflexivity.
-  - destruct (lstep s t) as [[s1 a]|] eqn:S; [|discriminate].
-    destruct (lrun s1 sched) as [[s2 tr2]|] eqn:Rn; [|discriminate]. injection H as <- <-.
-    pose proof (IH _ _ _ (lstep_inv _ _ _ _ I S) Rn) as Ok.
-    pose proof (I t) as It. unfold lstep in S. destruct (progs s t) as [|x rest] eqn:P; [discriminate|].
-    unfold is_holder in It. destruct x; cbn in It |- *.
-    + destruct (holder s); [discriminate|]. injection S as <- <-. exact Ok.
-    + injection S as <- <-. apply andb_prop in It. destruct It as (Hu & _).
-      destruct (holder s) as [u|]; [|discriminate]. rewrite Hu. exact Ok.
-    + injection S as <- <-. apply andb_prop in It. destruct It as (Hu & _).
-      destruct (holder s) as [u|]; [|discriminate]. rewrite Hu. exact Ok.
+  intros H Hx. rewrite forallb_forall in H. specialize (H x Hx). destruct (find_node T x) as [ns|]; [|discriminate].
+  apply andb_prop in H. destruct H as (He & Hn). exists ns. split; [reflexivity|]. split; [now apply N.eqb_eq|].
+  now apply ls_equiv_In.
 Qed.
 
-(* ------------------------------------------------------------------ what the discipline excludes *)
-Lemma no_adjacent_race tr : forall h, trace_ok_from h tr = true -> has_adjacent_race tr = false.
+Lemma next_in (ss : list N) choice pc' :
+  match ss with [] => Some None | a :: r => match nth_error (a :: r) (N.to_nat choice) with Some x => Some (Some x) | None => None end end = Some pc' ->
+  pc' = None \/ exists x, pc' = Some x /\ In x ss.
 Proof.
-  induction tr as [|[t1 a1] tr IH]; intros h H; [reflexivity|].
-  destruct a1; cbn [has_adjacent_race].
-  - cbn in H. destruct h; [discriminate|]. destruct tr as [|[t2 a2] tr']; [reflexivity | eapply IH; eauto].
-  - cbn in H. destruct h as [u|]; [|discriminate]. apply andb_prop in H. destruct H as (_ & H).
-    destruct tr as [|[t2 a2] tr']; [reflexivity | eapply IH; eauto].
-  - cbn in H. destruct h as [u|]; [|discriminate]. apply andb_prop in H. destruct H as (Hu & H).
-    apply Nat.eqb_eq in Hu. subst u.
-    destruct tr as [|[t2 a2] tr']; [reflexivity|].
-    destruct a2; try (eapply IH; eauto; fail).
-    pose proof H as H2. cbn in H2. apply andb_prop in H2. destruct H2 as (Hu2 & _). rewrite Hu2. cbn.
-    eapply IH; eauto.
+  destruct ss as [|a r]; [intros [= <-]; now left|].
+  destruct (nth_error (a :: r) (N.to_nat choice)) as [x|] eqn:E; [|discriminate].
+  intros [= <-]. right. exists x. split; [reflexivity | eapply nth_error_In; eauto].
 Qed.
 
-Fixpoint holder_after (h : option nat) (tr : list (nat * act)) : option nat :=
-  match tr with
-  | [] => h
-  | (t, ALock) :: r => holder_after (Some t) r
-  | (_, AUnlock) :: r => holder_after None r
-  | (_, AMap _) :: r => holder_after h r
-  end.
-
-Lemma trace_ok_app a : forall h b,
-  trace_ok_from h (a ++ b) = true -> trace_ok_from h a = true /\ trace_ok_from (holder_after h a) b = true.
+(* the step lemma: the invariant is preserved *)
+Lemma tstep_inv T roles s tid c s' ev :
+  table_wf T = true -> tinv T roles s -> tstep T roles s tid c = Some (s', ev) -> tinv T roles s'.
 Proof.
-  induction a as [|[t x] a IH]; intros h b H; cbn in *; [auto|].
-  destruct x.
-  - destruct h; [discriminate|]. now apply IH.
-  - destruct h; [|discriminate]. apply andb_prop in H. destruct H as (Hu & H). rewrite Hu. cbn. now apply IH.
-  - destruct h; [|discriminate]. apply andb_prop in H. destruct H as (Hu & H). rewrite Hu. cbn. now apply IH.
+  intros W I H. unfold tstep in H. destruct (pc s tid) as [n|] eqn:P.
+  - (* at a node *)
+    destruct (find_node T n) as [nd|] eqn:F; [|discriminate].
+    destruct (inv_pc _ _ _ I tid n P) as (nd0 & F0 & R0 & Cl). rewrite F in F0. injection F0 as <-.
+    pose proof (node_ok_of _ _ _ W F) as Ok. unfold node_ok in Ok. cbn [snd] in Ok.
+    destruct (ls_after (n_act nd) (n_ls nd)) as [ls'|] eqn:LA; [|discriminate].
+    match type of H with match ?nx with _ => _ end = _ => destruct nx as [pc'|] eqn:NX; [|discriminate] end.
+    apply next_in in NX.
+    (* what the new pc of tid needs *)
+    assert (forall lk', (forall m e, In (m, e) ls' -> In (tid, e) (lk' m)) ->
+            forall n', pc' = Some n' -> exists nd', find_node T n' = Some nd' /\ roles tid (n_entry nd') = true /\
+                                       forall m e, In (m, e) (n_ls nd') -> In (tid, e) (lk' m)) as New.
+    { intros lk' Hl n' ->. destruct NX as [NX|(x & [= <-] & Hx)]; [discriminate|].
+      destruct (succ_of _ _ _ _ Ok Hx) as (ns & Fs & Es & Ls). exists ns. split; [exact Fs|]. split; [now rewrite Es|].
+      intros m e Hin. apply Hl. now apply Ls. }
+    destruct (n_act nd) as [|m e|m e|l md] eqn:A.
+    + (* nop *) injection H as <- <-. cbn in LA. injection LA as <-. split; cbn.
+      * intros t' n'. unfold upd. destruct (Nat.eqb_spec t' tid) as [->|Hne]; [apply (New (locks s)); exact Cl | apply (inv_pc _ _ _ I)].
+      * apply (inv_wf _ _ _ I).
+    + (* lock *) destruct (lock_enabled (locks s m) e) eqn:En; [|discriminate]. injection H as <- <-.
+      cbn in LA. destruct (ls_holds m (n_ls nd)) eqn:Hh; [discriminate|]. injection LA as <-. split; cbn.
+      * intros t' n'. unfold upd. destruct (Nat.eqb_spec t' tid) as [->|Hne].
+        -- apply New. intros m' e' [[= <- <-]|Hin]; unfold updN.
+           ++ rewrite N.eqb_refl. now left.
+           ++ destruct (N.eqb_spec m' m) as [->|]; [right|]; now apply Cl.
+        -- intros Hp. destruct (inv_pc _ _ _ I t' n' Hp) as (nd' & F' & R' & Cl'). exists nd'. split; [exact F'|]. split; [exact R'|].
+           intros m' e' Hin. unfold updN. destruct (N.eqb_spec m' m) as [->|]; [right|]; now apply Cl'.
+      * intros m'. unfold updN. destruct (N.eqb_spec m' m) as [->|]; [|apply (inv_wf _ _ _ I)].
+        unfold lock_enabled in En. destruct e.
+        -- destruct (locks s m); [|discriminate]. left. now exists tid.
+        -- right. rewrite forallb_forall in En. intros x [<-|Hx]; [reflexivity|]. apply negb_true_iff. now apply En.
+    + (* unlock *) destruct (remove_first tid e (locks s m)) as [l'|] eqn:RF; [|discriminate]. injection H as <- <-.
+      cbn in LA. destruct (ls_has (m, e) (n_ls nd)); [|discriminate]. injection LA as <-. split; cbn.
+      * intros t' n'. unfold upd. destruct (Nat.eqb_spec t' tid) as [->|Hne].
+        -- apply New. intros m' e' Hin. apply ls_remove_In in Hin. destruct Hin as (Hin & Hm). cbn in Hm.
+           unfold updN. destruct (N.eqb_spec m' m); [congruence|]. now apply Cl.
+        -- intros Hp. destruct (inv_pc _ _ _ I t' n' Hp) as (nd' & F' & R' & Cl'). exists nd'. split; [exact F'|]. split; [exact R'|].
+           intros m' e' Hin. unfold updN. destruct (N.eqb_spec m' m) as [->|]; [|now apply Cl'].
+           eapply remove_first_other; eauto.
+      * intros m'. unfold updN. destruct (N.eqb_spec m' m) as [->|]; [|apply (inv_wf _ _ _ I)].
+        eapply remove_first_wf; [apply (inv_wf _ _ _ I) | exact RF].
+    + (* access: no guard, nothing changes but the pc *) injection H as <- <-. cbn in LA. injection LA as <-. split; cbn.
+      * intros t' n'. unfold upd. destruct (Nat.eqb_spec t' tid) as [->|Hne]; [apply (New (locks s)); exact Cl | apply (inv_pc _ _ _ I)].
+      * apply (inv_wf _ _ _ I).
+  - (* idle: a call *)
+    destruct (find_entry T c) as [en|] eqn:FE; [|discriminate]. destruct (roles tid (e_id en)) eqn:R; [|discriminate].
+    injection H as <- <-. split; cbn; [|apply (inv_wf _ _ _ I)].
+    intros t' n'. unfold upd. destruct (Nat.eqb_spec t' tid) as [->|Hne]; [|apply (inv_pc _ _ _ I)].
+    intros [= <-]. unfold table_wf in W. apply andb_prop in W. destruct W as (_ & W). rewrite forallb_forall in W.
+    unfold find_entry in FE. apply find_some in FE. destruct FE as (Hin & _). specialize (W en Hin). unfold entry_ok in W.
+    destruct (find_node T (e_start en)) as [nd|]; [|discriminate]. destruct (n_ls nd) eqn:L; [|discriminate].
+    apply N.eqb_eq in W. exists nd. split; [reflexivity|]. split; [now rewrite W|]. rewrite L. intros m e [].
 Qed.
 
-Lemma lock_exists l : forall h t2,
-  trace_ok_from h l = true -> holder_after h l = Some t2 -> h <> Some t2 ->
-  exists m2 m3, l = m2 ++ (t2, ALock) :: m3.
+Lemma trun_inv T roles sched : forall s s' tr,
+  table_wf T = true -> tinv T roles s -> trun T roles s sched = Some (s', tr) -> tinv T roles s'.
 Proof.
-  induction l as [|[t x] l IH]; intros h t2 Ok Ha Hn; cbn in *; [congruence|].
-  destruct x.
-  - destruct h; [discriminate|]. destruct (Nat.eq_dec t t2) as [->|Hne].
-    + exists [], l. reflexivity.
-    + destruct (IH (Some t) t2 Ok Ha) as (m2 & m3 & ->); [congruence|]. exists ((t, ALock) :: m2), m3. reflexivity.
-  - destruct h; [|discriminate]. apply andb_prop in Ok. destruct Ok as (_ & Ok).
-    destruct (IH None t2 Ok Ha) as (m2 & m3 & ->); [discriminate|]. exists ((t, AUnlock) :: m2), m3. reflexivity.
-  - destruct h; [|discriminate]. apply andb_prop in Ok. destruct Ok as (_ & Ok).
-    destruct (IH (Some n) t2 Ok Ha Hn) as (m2 & m3 & ->). exists ((t, AMap write) :: m2), m3. reflexivity.
+  induction sched as [|[t c] sched IH]; intros s s' tr W I H; cbn in H.
+  - now injection H as <- <-.
+  - destruct (tstep T roles s t c) as [[s1 ev]|] eqn:S; [|discriminate].
+    destruct (trun T roles s1 sched) as [[s2 tr2]|] eqn:Rn; [|discriminate]. injection H as <- <-.
+    exact (IH s1 _ _ W (tstep_inv _ _ _ _ _ _ _ W I S) Rn).
 Qed.
 
-Lemma unlock_then_lock mid : forall t1 t2,
-  trace_ok_from (Some t1) mid = true -> holder_after (Some t1) mid = Some t2 -> t1 <> t2 ->
-  exists m1 m2 m3, mid = m1 ++ (t1, AUnlock) :: m2 ++ (t2, ALock) :: m3.
+(* ------------------------------------------------------------------ no race state *)
+Lemma accesses_of_In T n nd l md : find_node T n = Some nd -> n_act nd = AAcc l md -> In nd (accesses_of T l).
 Proof.
-  induction mid as [|[t x] mid IH]; intros t1 t2 Ok Ha Hn; cbn in *; [congruence|].
-  destruct x; [discriminate| |].
-  - apply andb_prop in Ok. destruct Ok as (Hu & Ok). apply Nat.eqb_eq in Hu. subst t.
-    destruct (lock_exists mid None t2 Ok Ha) as (m2 & m3 & ->); [discriminate|].
-    exists [], m2, m3. reflexivity.
-  - apply andb_prop in Ok. destruct Ok as (Hu & Ok).
-    destruct (IH t1 t2 Ok Ha Hn) as (m1 & m2 & m3 & ->). exists ((t, AMap write) :: m1), m2, m3. reflexivity.
+  intros F A. unfold accesses_of. apply filter_In. split.
+  - apply in_map_iff. exists (n, nd). split; [reflexivity | now apply assocN_In].
+  - rewrite A. apply N.eqb_refl.
 Qed.
 
-(* Two map accesses by different threads are always separated by the first
-   thread's Unlock followed by the second thread's Lock: the release/acquire
-   pair through which Go's memory model orders them (sync.Mutex). *)
-Lemma separated h pre t1 w1 mid t2 w2 post :
-  trace_ok_from h (pre ++ (t1, AMap w1) :: mid ++ (t2, AMap w2) :: post) = true -> t1 <> t2 ->
-  exists m1 m2 m3, mid = m1 ++ (t1, AUnlock) :: m2 ++ (t2, ALock) :: m3.
+(* In a state satisfying the invariant no two threads are about to perform conflicting accesses to a
+   location whose pairs all share a mutex. *)
+Lemma no_race_state T roles s l :
+  roles_ok T roles -> tinv T roles s -> loc_ok T l = true -> ~ race_state T s l.
 Proof.
-  intros H Hn. apply trace_ok_app in H. destruct H as (_ & H). cbn in H.
-  destruct (holder_after h pre) as [u|]; [|discriminate]. apply andb_prop in H. destruct H as (Hu & H).
-  apply Nat.eqb_eq in Hu. subst u. apply trace_ok_app in H. destruct H as (Hm & H). cbn in H.
-  destruct (holder_after (Some t1) mid) as [u|] eqn:Ha; [|discriminate]. apply andb_prop in H. destruct H as (Hu & _).
-  apply Nat.eqb_eq in Hu. subst u. eapply unlock_then_lock; eauto.
+  intros RO I LO (t1 & t2 & m1 & m2 & Hne & (n1 & nd1 & P1 & F1 & A1) & (n2 & nd2 & P2 & F2 & A2) & C).
+  destruct (inv_pc _ _ _ I t1 n1 P1) as (x1 & F1' & R1 & Cl1). rewrite F1 in F1'. injection F1' as <-.
+  destruct (inv_pc _ _ _ I t2 n2 P2) as (x2 & F2' & R2 & Cl2). rewrite F2 in F2'. injection F2' as <-.
+  unfold loc_ok in LO. rewrite forallb_forall in LO.
+  specialize (LO nd1 (accesses_of_In _ _ _ _ _ F1 A1)). rewrite forallb_forall in LO.
+  specialize (LO nd2 (accesses_of_In _ _ _ _ _ F2 A2)). unfold pair_ok in LO. rewrite A1, A2, !N.eqb_refl, C in LO. cbn [andb] in LO.
+  assert (conc T (n_entry nd1) (n_entry nd2) = true) as Cc.
+  { unfold conc. destruct (N.eqb_spec (n_entry nd1) (n_entry nd2)) as [E|]; [|reflexivity]. cbn.
+    destruct (entry_multi T (n_entry nd1)) eqn:M; [reflexivity|]. exfalso. apply Hne.
+    apply (RO t1 t2 (n_entry nd1)); [exact R1 | now rewrite E | exact M]. }
+  rewrite Cc in LO. unfold share_lock in LO. apply existsb_exists in LO. destruct LO as ([m e1] & H1 & LO).
+  apply existsb_exists in LO. destruct LO as ([m' e2] & H2 & LO). cbn in LO. apply andb_prop in LO. destruct LO as (Em & Ex).
+  apply N.eqb_eq in Em. subst m'. pose proof (Cl1 _ _ H1) as L1. pose proof (Cl2 _ _ H2) as L2.
+  destruct (inv_wf _ _ _ I m) as [(u & E)|Sh].
+  - rewrite E in L1, L2. destruct L1 as [[= -> _]|[]]. destruct L2 as [[= -> _]|[]]. now apply Hne.
+  - apply Sh in L1. apply Sh in L2. cbn in L1, L2. subst. discriminate.
 Qed.
 
-(* ------------------------------------------------------------------ the whole statement *)
-Definition well_locked (s : lstate) : Prop :=
-  holder s = None /\ forall t, exists rs, Forall (fun r => routine_ok r = true) rs /\ progs s t = List.concat rs.
-
-Lemma well_locked_inv s : well_locked s -> linv s.
+(* mutual exclusion: a mutex one thread holds exclusively (by its node's certificate) is not held by another thread *)
+Lemma mutual_exclusion T roles s t1 t2 n1 n2 nd1 nd2 m e :
+  tinv T roles s -> t1 <> t2 ->
+  pc s t1 = Some n1 -> find_node T n1 = Some nd1 -> In (m, true) (n_ls nd1) ->
+  pc s t2 = Some n2 -> find_node T n2 = Some nd2 -> In (m, e) (n_ls nd2) -> False.
 Proof.
-  intros (Hh & Hp) t. unfold is_holder. rewrite Hh. destruct (Hp t) as (rs & F & ->). now apply ok_concat.
+  intros I Hne P1 F1 H1 P2 F2 H2.
+  destruct (inv_pc _ _ _ I t1 n1 P1) as (x1 & F1' & _ & Cl1). rewrite F1 in F1'. injection F1' as <-.
+  destruct (inv_pc _ _ _ I t2 n2 P2) as (x2 & F2' & _ & Cl2). rewrite F2 in F2'. injection F2' as <-.
+  pose proof (Cl1 _ _ H1) as L1. pose proof (Cl2 _ _ H2) as L2.
+  destruct (inv_wf _ _ _ I m) as [(u & E)|Sh].
+  - rewrite E in L1, L2. destruct L1 as [[= -> ]|[]]. destruct L2 as [[= -> _]|[]]. now apply Hne.
+  - apply Sh in L1. discriminate.
 Qed.
 
-Lemma race_free s sched s' tr :
-  well_locked s -> lrun s sched = Some (s', tr) ->
-  trace_ok tr = true /\ has_adjacent_race tr = false /\
-  forall pre t1 w1 mid t2 w2 post, tr = pre ++ (t1, AMap w1) :: mid ++ (t2, AMap w2) :: post -> t1 <> t2 ->
-    exists m1 m2 m3, mid = m1 ++ (t1, AUnlock) :: m2 ++ (t2, ALock) :: m3.
+(* ------------------------------------------------------------------ every execution *)
+Theorem race_free T roles sched s tr :
+  table_wf T = true -> roles_ok T roles -> trun T roles tinit sched = Some (s, tr) ->
+  forall l, loc_ok T l = true -> ~ race_state T s l.
 Proof.
-  intros W H. pose proof (lrun_trace_ok sched s s' tr (well_locked_inv s W) H) as Ok.
-  destruct W as (Hh & _). rewrite Hh in Ok. split; [exact Ok|]. split; [eapply no_adjacent_race; eauto|].
-  intros pre t1 w1 mid t2 w2 post -> Hn. eapply separated; eauto.
+  intros W RO Rn l LO. eapply no_race_state; eauto. eapply trun_inv; eauto. apply tinit_inv.
 Qed.
 
-(* ------------------------------------------------------------------ the code's routines *)
-From V Require Import Gen.ConnLocks.
-
-Lemma conn_routines_ok : forallb (fun x => routine_ok (snd x)) conn_routines = true /\ conn_routines <> [].
-Proof. split; [vm_compute; reflexivity | discriminate]. Qed.
-
-(* a thread program made of routines of conn.go, in any order and number *)
-Definition uses_conn_routines (p : list act) : Prop :=
-  exists rs, Forall (fun r => In r (map snd conn_routines)) rs /\ p = List.concat rs.
-
-Lemma conn_programs_well_locked s :
-  holder s = None -> (forall t, uses_conn_routines (progs s t)) -> well_locked s.
+(* trace form: two conflicting accesses by different threads are never adjacent in an executed trace *)
+Lemma trun_app T roles a : forall s b s' tr,
+  trun T roles s (a ++ b) = Some (s', tr) ->
+  exists s1 tr1 tr2, trun T roles s a = Some (s1, tr1) /\ trun T roles s1 b = Some (s', tr2) /\ tr = tr1 ++ tr2 /\ List.length tr1 = List.length a.
 Proof.
-  intros Hh Hp. split; [exact Hh|]. intros t. destruct (Hp t) as (rs & F & E). exists rs. split; [|exact E].
-  eapply Forall_impl; [|exact F]. intros r Hr. cbn beta in Hr. apply in_map_iff in Hr. destruct Hr as ([n r'] & <- & Hin).
-  destruct conn_routines_ok as (Ok & _). rewrite forallb_forall in Ok. exact (Ok _ Hin).
+  induction a as [|[t c] a IH]; intros s b s' tr H; cbn in H |- *.
+  - exists s, [], tr. repeat split; auto.
+  - destruct (tstep T roles s t c) as [[s1 ev]|]; [|discriminate].
+    destruct (trun T roles s1 (a ++ b)) as [[s2 tr2]|] eqn:Rn; [|discriminate]. injection H as <- <-.
+    destruct (IH _ _ _ _ Rn) as (sa & ta & tb & Ra & Rb & -> & Len). rewrite Ra. exists sa, (ev :: ta), tb.
+    repeat split; auto. cbn. now rewrite Len.
 Qed.
 
-(* ------------------------------------------------------------------ the pre-repair routines race *)
-Lemma legacy_races :
-  let s := mkL None (fun t => match t with 0%nat => legacy_register | 1%nat => legacy_lookup | _ => [] end) in
-  exists s' tr, lrun s [0%nat; 1%nat] = Some (s', tr) /\ has_adjacent_race tr = true /\ trace_ok tr = false /\
-                routine_ok legacy_register = false.
-Proof. cbv zeta. eexists. eexists. split; [reflexivity|]. repeat split; reflexivity. Qed.
-
-(* non-vacuity: three threads running routines of conn.go, interleaved *)
-Lemma c06_example :
-  exists reg unreg take, In reg (map snd conn_routines) /\ In unreg (map snd conn_routines) /\ In take (map snd conn_routines) /\
-  let s := mkL None (fun t => match t with 0%nat => reg ++ unreg | 1%nat => take ++ take | 2%nat => reg | _ => [] end) in
-  well_locked s /\
-  exists s' tr, lrun s [0; 0; 0; 1; 1; 1; 1; 2; 2; 2; 0; 0; 0; 1; 1; 1; 1]%nat = Some (s', tr) /\
-                List.length (filter (fun x => match snd x with AMap _ => true | _ => false end) tr) = 7%nat.
+Lemma trun_length T roles sched : forall s s' tr, trun T roles s sched = Some (s', tr) -> List.length tr = List.length sched.
 Proof.
-  exists [ALock; AMap true; AUnlock], [ALock; AMap true; AUnlock], [ALock; AMap false; AMap true; AUnlock].
-  split; [vm_compute; tauto|]. split; [vm_compute; tauto|]. split; [vm_compute; tauto|]. cbv zeta. split.
-  - split; [reflexivity|]. intros [|[|[|t]]]; cbn.
-    + exists [[ALock; AMap true; AUnlock]; [ALock; AMap true; AUnlock]]. split; [repeat constructor | reflexivity].
-    + exists [[ALock; AMap false; AMap true; AUnlock]; [ALock; AMap false; AMap true; AUnlock]]. split; [repeat constructor | reflexivity].
-    + exists [[ALock; AMap true; AUnlock]]. split; [repeat constructor | reflexivity].
-    + exists []. split; [constructor | reflexivity].
+  induction sched as [|[t c] r IH]; intros s s' tr H; cbn in H; [now injection H as <- <-|].
+  destruct (tstep T roles s t c) as [[s1 ev]|]; [|discriminate].
+  destruct (trun T roles s1 r) as [[s2 tr2]|] eqn:Rn; [|discriminate]. injection H as <- <-. cbn. f_equal. eauto.
+Qed.
+
+Lemma tstep_act T roles s t c s' t' n a :
+  tstep T roles s t c = Some (s', EAct t' n a) ->
+  t' = t /\ pc s t = Some n /\ (exists nd, find_node T n = Some nd /\ n_act nd = a) /\ forall u, u <> t -> pc s' u = pc s u.
+Proof.
+  unfold tstep. intros H. destruct (pc s t) as [n0|] eqn:P.
+  - destruct (find_node T n0) as [nd|] eqn:F; [|discriminate].
+    match type of H with match ?nx with _ => _ end = _ => destruct nx as [pc'|]; [|discriminate] end.
+    assert (forall lk, Some (mkT (upd (pc s) t pc') lk, EAct t n0 (n_act nd)) = Some (s', EAct t' n a) ->
+            t' = t /\ Some n0 = Some n /\ (exists nd0, find_node T n = Some nd0 /\ n_act nd0 = a) /\ forall u, u <> t -> pc s' u = pc s u) as G.
+    { intros lk [= <- <- <- <-]. split; [reflexivity|]. split; [reflexivity|]. split; [now exists nd|].
+      intros u Hu. cbn. unfold upd. destruct (Nat.eqb_spec u t); [congruence | reflexivity]. }
+    destruct (n_act nd) as [|m e|m e|l md].
+    + eapply G; eauto.
+    + destruct (lock_enabled (locks s m) e); [eapply G; eauto | discriminate].
+    + destruct (remove_first t e (locks s m)); [eapply G; eauto | discriminate].
+    + eapply G; eauto.
+  - destruct (find_entry T c) as [en|]; [|discriminate]. destruct (roles t (e_id en)); discriminate.
+Qed.
+
+Lemma app_inv_length {A} (a : list A) : forall c b d, a ++ b = c ++ d -> List.length a = List.length c -> a = c /\ b = d.
+Proof.
+  induction a as [|x a IH]; intros [|y c] b d E L; cbn in *; try discriminate; [auto|].
+  injection E as -> E. injection L as L. destruct (IH _ _ _ E L) as (-> & ->). auto.
+Qed.
+
+Theorem no_adjacent_race T roles sched s tr :
+  table_wf T = true -> roles_ok T roles -> trun T roles tinit sched = Some (s, tr) ->
+  forall pre t1 n1 l m1 t2 n2 m2 post,
+    tr = pre ++ EAct t1 n1 (AAcc l m1) :: EAct t2 n2 (AAcc l m2) :: post ->
+    t1 <> t2 -> conflict m1 m2 = true -> loc_ok T l = false.
+Proof.
+  intros W RO Rn pre t1 n1 l m1 t2 n2 m2 post E Hne C. destruct (loc_ok T l) eqn:LO; [exfalso | reflexivity].
+  pose proof (trun_length _ _ _ _ _ _ Rn) as Len.
+  (* split the schedule where the trace is split *)
+  assert (exists sa sb, sched = sa ++ sb /\ List.length sa = List.length pre) as (sa & sb & -> & La).
+  { exists (firstn (List.length pre) sched), (skipn (List.length pre) sched). split; [now rewrite firstn_skipn|].
+    apply firstn_length_le. rewrite <- Len, E, app_length. lia. }
+  destruct (trun_app _ _ _ _ _ _ _ Rn) as (s1 & tr1 & tr2 & Ra & Rb & Et & L1).
+  assert (tr1 = pre /\ tr2 = EAct t1 n1 (AAcc l m1) :: EAct t2 n2 (AAcc l m2) :: post) as (-> & ->).
+  { rewrite E in Et. symmetry in Et. apply app_inv_length in Et; [destruct Et; now subst | congruence]. }
+  destruct sb as [|[ta ca] sb]; [discriminate|]. cbn in Rb.
+  destruct (tstep T roles s1 ta ca) as [[s2 e1]|] eqn:S1; [|discriminate].
+  destruct sb as [|[tb cb] sb]; [cbn in Rb; discriminate|]. cbn in Rb.
+  destruct (tstep T roles s2 tb cb) as [[s3 e2]|] eqn:S2; [|discriminate].
+  destruct (trun T roles s3 sb) as [[s4 tr4]|]; [|discriminate]. injection Rb as <- -> -> <-.
+  apply tstep_act in S1. destruct S1 as (-> & P1 & (nd1 & F1 & A1) & Oth).
+  apply tstep_act in S2. destruct S2 as (-> & P2 & (nd2 & F2 & A2) & _).
+  assert (tinv T roles s1) as I by (eapply trun_inv; eauto; apply tinit_inv).
+  apply (no_race_state T roles s1 l RO I LO). exists ta, tb, m1, m2. split; [exact Hne|]. split; [|split; [|exact C]].
+  - exists n1, nd1. auto.
+  - exists n2, nd2. rewrite <- (Oth tb) by congruence. auto.
+Qed.
+
+
+(* ------------------------------------------------------------------ the miniatures *)
+Lemma sample_ok : table_wf sample_table = true /\ loc_ok sample_table 0 = true.
+Proof. split; vm_compute; reflexivity. Qed.
+
+(* three threads: two run the any-number entry, thread 0 the single one; interleaved; all of them reach their accesses *)
+Lemma sample_runs :
+  roles_ok sample_table (default_roles sample_table) /\
+  exists s tr, trun sample_table (default_roles sample_table) tinit
+                 (map (fun p => (fst p, N.of_nat (snd p))) [(1, 0); (0, 1); (1, 0); (1, 0); (1, 0); (0, 0); (0, 0); (2, 0); (0, 0); (0, 0); (2, 0); (2, 0); (2, 0); (1, 0); (0, 0)]%nat) = Some (s, tr) /\
+               List.length (filter (fun e => match e with EAct _ _ (AAcc _ _) => true | _ => false end) tr) = 4%nat.
+Proof.
+  split.
+  - intros t1 t2 e R1 R2 M. unfold default_roles in *. destruct t1, t2; try reflexivity; rewrite M in *; discriminate.
   - eexists. eexists. split; [vm_compute; reflexivity | reflexivity].
+Qed.
+
+(* a flag tested and set without a lock by an entry two goroutines run: the checker refuses it, and a race state is reachable *)
+Lemma unguarded_refuted :
+  table_wf unguarded_table = true /\ loc_ok unguarded_table 1 = false /\ loc_ok unguarded_table 0 = true /\
+  exists s tr, trun unguarded_table (default_roles unguarded_table) tinit (map (fun p => (fst p, N.of_nat (snd p))) [(0, 2); (1, 2); (0, 0)]%nat) = Some (s, tr) /\
+               race_state unguarded_table s 1.
+Proof.
+  split; [vm_compute; reflexivity|]. split; [vm_compute; reflexivity|]. split; [vm_compute; reflexivity|].
+  eexists. eexists. split; [vm_compute; reflexivity|].
+  exists 0%nat, 1%nat, MWrite, MRead. split; [discriminate|]. split; [|split; [|reflexivity]].
+  - exists 21, (mkNode 2 (AAcc 1 MWrite) [] [22]). repeat split; reflexivity.
+  - exists 20, (mkNode 2 (AAcc 1 MRead) [] [21; 22]). repeat split; reflexivity.
 Qed.
